@@ -374,6 +374,32 @@ func (e *Effects) evalRaw(v ssa.Value, env *Env, d int) AbsVal {
 		}
 		return e.load(x.X, env, d+1)
 	case *ssa.BinOp:
+		// key built by concatenation: prefix + "/" + name  ≡  JoinPath(prefix, name)
+		if x.Op == token.ADD && isStringValue(x) {
+			left, right := e.eval(x.X, env, d+1), e.eval(x.Y, env, d+1)
+			if left.Top || len(left.Strs) == 0 {
+				return topVal
+			}
+			out := AbsVal{Strs: map[string]bool{}}
+			for l := range left.Strs {
+				if strings.ContainsAny(l, "*$") {
+					return topVal
+				}
+				switch {
+				case !right.Top && len(right.Strs) == 1 && right.Strs["$self"] && strings.HasSuffix(l, "/"):
+					out.Strs[l+"$self"] = true
+				case !right.Top && len(right.Strs) > 0 && !hasSpecial(right.Strs):
+					for r := range right.Strs {
+						out.Strs[l+r] = true
+					}
+				case strings.HasSuffix(l, "/"):
+					out.Strs[l+"*"] = true
+				default:
+					return topVal
+				}
+			}
+			return out
+		}
 		return topVal
 	case *ssa.MakeMap, *ssa.MakeSlice:
 		return e.elems(v, env, d+1)
@@ -1102,4 +1128,18 @@ func (e *Effects) memoEval(v ssa.Value, env *Env, d int, kind byte) AbsVal {
 		e.evalMemo[k] = r
 	}
 	return r
+}
+
+func isStringValue(v ssa.Value) bool {
+	bt, ok := v.Type().Underlying().(*types.Basic)
+	return ok && bt.Info()&types.IsString != 0
+}
+
+func hasSpecial(m map[string]bool) bool {
+	for k := range m {
+		if strings.ContainsAny(k, "*$") {
+			return true
+		}
+	}
+	return false
 }
